@@ -1,0 +1,52 @@
+//go:build verif
+
+// Contracts for contract-based deductive verification (govc, /verif).
+// This file contains comments only; it adds no code to the package.
+
+package trafficprotocol
+
+//@ # ---- C37: no message from the remote peer makes the cheque protocol panic --------------------
+//@ # A message read from the stream is arbitrary; what encoding/json makes of its bytes is arbitrary
+//@ # too (a pointer target may come back nil: the JSON text "null").
+//@ extern func (github.com/gauss-project/aurorafs/pkg/p2p/protobuf.Reader).ReadMsgWithContext
+//@   assigns target(msg)
+//@ extern func (github.com/gauss-project/aurorafs/pkg/p2p/protobuf.Writer).WriteMsgWithContext
+//@   assigns nothing
+//@ extern func github.com/gauss-project/aurorafs/pkg/p2p/protobuf.NewWriterAndReader
+//@   assigns nothing
+//@ extern func github.com/gauss-project/aurorafs/pkg/p2p/protobuf.NewReader
+//@   assigns nothing
+//@ extern func encoding/json.Unmarshal
+//@   assigns target(v)
+//@ extern func encoding/json.Marshal
+//@   assigns nothing
+//@ extern func (github.com/gauss-project/aurorafs/pkg/p2p.Stream).Reset
+//@   assigns nothing
+//@ extern func (github.com/gauss-project/aurorafs/pkg/p2p.Stream).FullClose
+//@   assigns nothing
+//@ extern func (github.com/gauss-project/aurorafs/pkg/p2p.Streamer).NewStream
+//@   ensures result1 == nil ==> result0 != nil
+//@   assigns nothing
+//@ # the traffic service dereferences the cheque it is handed (its contract in pkg/settlement/traffic
+//@ # requires one, C30)
+//@ extern func (github.com/gauss-project/aurorafs/pkg/settlement/traffic/trafficprotocol.Traffic).ReceiveCheque
+//@   requires cheque != nil
+//@   assigns nothing
+//@ extern func (github.com/gauss-project/aurorafs/pkg/settlement/traffic/trafficprotocol.Traffic).Handshake
+//@   assigns nothing
+//@ extern func (github.com/gauss-project/aurorafs/pkg/settlement/traffic/trafficprotocol.Traffic).LastReceivedCheque
+//@   assigns nothing
+
+//@ spec func serviceOK(s *Service) bool = s != nil && s.streamer != nil && s.logging != nil && s.traffic != nil
+
+//@ func (*Service).handler
+//@   property C37
+//@   requires serviceOK(s) && stream != nil
+
+//@ func (*Service).initHandler
+//@   property C37
+//@   requires serviceOK(s) && stream != nil
+
+//@ func (*Service).init
+//@   property C37
+//@   requires serviceOK(s)
